@@ -297,6 +297,7 @@ func hasBoundaryStrings(o *proxyv1alpha1.UpstreamCluster) bool {
 	}
 	return false
 }
+
 var badNames = []string{"", "UPPER", "a_b", "-a", "a-", "a..b", ".a", "a b", "a/b", "ü", "a\x00"}
 
 func genName(g *vkit.Rand, bad bool) string {
